@@ -164,8 +164,6 @@ Section Scope.
       apply filter_In in I. tauto.
   Qed.
 
-  Hypothesis P_k3 : forall s0, In s0 svcs -> f_k3_fixed m = false -> s_ns s0 = cfg -> P s0.
-
   Lemma resolve_dest_from : forall hint h s, resolve_dest m (sort_services svcs) cfg hint h = Some s -> From s.
   Proof.
     intros hint h s H. unfold resolve_dest in H.
@@ -181,11 +179,8 @@ Section Scope.
         unfold pick_first in E. apply min_string_In in E. apply pick_ns_sound in E; [|auto].
         destruct E as [s' [L [A B]]]. rewrite L in Hx. injection Hx as <-. apply from_visible; assumption. }
     destruct (hn_lookup (sort_services svcs) h cfg) as [x|] eqn:L; [|apply O; exact H].
-    destruct (f_k3_fixed m) eqn:K.
-    - destruct (is_visible m x cfg) eqn:V; [|apply O; exact H].
-      injection H as <-. apply hn_lookup_sound in L. apply from_visible; tauto.
-    - injection H as <-. apply hn_lookup_sound in L. destruct L as [A [B C]].
-      apply (proj1 (sort_services_In _ _)) in A. exists x. split; [exact A|]. split; [reflexivity|]. apply P_k3; auto.
+    destruct (is_visible m x cfg) eqn:V; [|apply O; exact H].
+    injection H as <-. apply hn_lookup_sound in L. apply from_visible; tauto.
   Qed.
 
   Lemma svc_vs_ports_core : forall s ports x, svc_vs_ports s ports = Some x -> core x = core s.
@@ -258,22 +253,11 @@ End Scope.
 Definition StemsFromVisible (m : mesh) (svcs : list service) (cfg : string) (s : service) : Prop :=
   exists s0, In s0 svcs /\ core s = core s0 /\ is_visible m s0 cfg = true.
 
-(* with the same-namespace visibility check (the repair of K3) nothing invisible enters a scope *)
-Theorem no_leak_fixed : forall m svcs vss cfg ls hint s, f_k3_fixed m = true ->
+Theorem no_leak : forall m svcs vss cfg ls hint s,
   In s (sidecar_scope m svcs vss cfg ls hint) -> StemsFromVisible m svcs cfg s.
 Proof.
-  intros m svcs vss cfg ls hint s K H.
-  apply (sidecar_scope_from m svcs cfg (fun s0 => is_visible m s0 cfg = true)) in H; auto.
-  intros s0 _ K'. rewrite K in K'. discriminate.
-Qed.
-
-(* the code as it is: an invisible service can only be one of the proxy's own namespace *)
-Theorem no_leak_partial : forall m svcs vss cfg ls hint s,
-  In s (sidecar_scope m svcs vss cfg ls hint) ->
-  exists s0, In s0 svcs /\ core s = core s0 /\ (is_visible m s0 cfg = true \/ s_ns s0 = cfg).
-Proof.
   intros m svcs vss cfg ls hint s H.
-  apply (sidecar_scope_from m svcs cfg (fun s0 => is_visible m s0 cfg = true \/ s_ns s0 = cfg)) in H; auto.
+  apply (sidecar_scope_from m svcs cfg (fun s0 => is_visible m s0 cfg = true)) in H; auto.
 Qed.
 
 Theorem gateway_no_leak : forall m svcs cfg s,
@@ -283,27 +267,15 @@ Proof.
   apply (gateway_scope_from m svcs cfg (fun s0 => is_visible m s0 cfg = true)) in H; auto.
 Qed.
 
-Theorem proxy_no_leak_fixed : forall m svcs vss scs cfg labels hint s, f_k3_fixed m = true ->
+Theorem proxy_no_leak : forall m svcs vss scs cfg labels hint s,
   In s (proxy_scope m svcs vss scs cfg labels hint) -> StemsFromVisible m svcs cfg s.
-Proof. intros. unfold proxy_scope in *. eapply no_leak_fixed; eauto. Qed.
+Proof. intros. unfold proxy_scope in *. eapply no_leak; eauto. Qed.
 
-(* K3 witness: two ns1 services not exported to ns1, an ns1 VirtualService routing to them *)
-Definition k3_mesh := mkMesh None None None false "rootns" true true false.
+(* regression input of K3 (repaired in /repo cba5e9c): two ns1 services not exported to ns1 and an
+   ns1 VirtualService routing to them *)
+Definition k3_mesh := mkMesh None None None false "rootns" true true.
 Definition k3_svcs :=
   [ mkSvc "a.com" "ns1" Ext ["ns2"] VPublic [80%N] 1 "s00" 0;
     mkSvc "c.org" "ns1" Ext ["~"] VPublic [80%N] 2 "s01" 0 ].
 Definition k3_vss :=
   [ mkVs 1 "ns1" ["d.io"] [] false true [mkRoute true [] [("a.com", 0%N); ("c.org", 0%N)]] 0 ].
-
-Theorem no_leak_refuted :
-  exists m svcs vss cfg ls hint s,
-    In s (sidecar_scope m svcs vss cfg ls hint) /\ real_ns cfg = true /\
-    forallb (wf_service m) svcs = true /\ ~ StemsFromVisible m svcs cfg s.
-Proof.
-  exists k3_mesh, k3_svcs, k3_vss, "ns1", [], [].
-  exists (mkSvc "a.com" "ns1" Ext ["ns2"] VPublic [80%N] 1 "s00" 0).
-  split; [vm_compute; left; reflexivity|]. split; [reflexivity|]. split; [reflexivity|].
-  intros [s0 [H [C V]]]. cbn in H. destruct H as [<-|[<-|[]]].
-  - vm_compute in V. discriminate.
-  - vm_compute in C. discriminate.
-Qed.
